@@ -136,8 +136,55 @@ class Prefixer(ast.NodeVisitor):
         super().generic_visit(n)
 
 
+def exploded(src: str, every: int = 1) -> str:
+    """The same token sequence with a line break before every `every`-th token that sits inside brackets
+    (where Python allows a break between any two tokens): every bracketed construct spans several lines."""
+    import io
+    import tokenize as tk
+    lines = src.split("\n")
+
+    def between(a, b):
+        if a[0] == b[0]:
+            return lines[a[0] - 1][a[1]:b[1]]
+        return lines[a[0] - 1][a[1]:] + "\n" + "\n".join(lines[a[0]:b[0] - 1]) + ("\n" if b[0] - a[0] > 1 else "") + lines[b[0] - 1][:b[1]]
+    out, prev_end, depth, fdepth, k = [], (1, 0), 0, 0, 0
+    prev_type = None
+    indent = 0
+    skip = {tk.NL, tk.NEWLINE, tk.COMMENT, tk.ENDMARKER, tk.INDENT, tk.DEDENT}
+    fstart, fend = getattr(tk, "FSTRING_START", -1), getattr(tk, "FSTRING_END", -2)
+    for t in tk.generate_tokens(io.StringIO(src).readline):
+        if t.type in (tk.INDENT, tk.DEDENT, tk.ENDMARKER):
+            continue
+        gap = between(prev_end, t.start) if prev_end <= t.start else ""
+        if depth == 0 and t.start[1] == 0 or (prev_type in (tk.NEWLINE, None) and depth == 0):
+            indent = len(lines[t.start[0] - 1]) - len(lines[t.start[0] - 1].lstrip())
+        if depth > 0 and fdepth == 0 and t.type not in skip and prev_type not in (tk.COMMENT, tk.NL) and t.start[0] == prev_end[0] and "\\" not in gap:
+            k += 1
+            if k % every == 0:
+                gap = "\n" + " " * (indent + 4 * depth + (0 if t.string in ")]}" else 2))
+        out.append(gap + t.string)
+        if t.type == fstart:
+            fdepth += 1
+        elif t.type == fend:
+            fdepth -= 1
+        elif t.type == tk.OP and fdepth == 0:
+            if t.string in "([{":
+                depth += 1
+            elif t.string in ")]}":
+                depth -= 1
+        prev_end, prev_type = ((t.end[0] + 1, 0) if t.type in (tk.NEWLINE, tk.NL) and t.string.endswith("\n") else t.end), t.type
+    return "".join(out)
+
+
 def variants(src: str, name: str) -> dict[str, bytes]:
     out = {f"{name}": src.encode("utf8")}
+    for every in (1, 3):
+        try:
+            cand = exploded(src, every)
+            if cand != src and ast.dump(ast.parse(cand)) == ast.dump(ast.parse(src)):
+                out[f"exploded{every}_{name}"] = cand.encode("utf8")
+        except Exception:  # noqa: BLE001
+            pass
     out[f"crlf_{name}"] = src.replace("\n", "\r\n").encode("utf8")
     out[f"bom_{name}"] = b"\xef\xbb\xbf" + src.encode("utf8")
     out[f"tabs_{name}"] = "\n".join(("\t" * ((len(l) - len(l.lstrip(" "))) // 4) + l.lstrip(" ")) if l.startswith("    ") else l
@@ -252,4 +299,4 @@ def run(ctx: Ctx) -> None:
                            {"file": Path(e.filename).name, "line": e.line, "column0": e.column, "code": e.code, "verdict": v,
                             "source_line": lines[e.line - 1] if 0 < e.line <= len(lines) else None,
                             "content": Path(e.filename).read_text("utf8", errors="replace") if len(Path(e.filename).read_bytes()) < 6000 else None})
-    ctx.resolve_broken({"furb106_position": "position:", "furb180_position_guarded": "position:"}, b.first_error if b else "")
+    ctx.resolve_broken({"furb106_position": "position:", "furb180_position_guarded": "position:", "translate hand-computed positions": "position:"}, b.first_error if b else "")
